@@ -173,3 +173,16 @@ pub open spec fn sem_items(ev: &Evaluator<'_>, slots: SlotEnv, e: Expr, n: nat) 
         }
     }
 }
+
+// ---- C13: what the typed-unknown short cuts may conclude ----
+/// the entity type annotation of a typed unknown
+pub open spec fn typed_unknown(e: Expr) -> Option<EntityType> {
+    match e.expr_kind { ExprKind::Unknown(Unknown { type_annotation: Some(Type::Entity { ty }), .. }) => Some(ty), _ => None }
+}
+/// a concrete answer for `x == y` is sound when every pair of entities of the declared types gives it
+pub open spec fn sound_eq_answer(r: Option<PartialValue>, left: spec_fn(EntityUID) -> bool, right: spec_fn(EntityUID) -> bool) -> bool {
+    match r {
+        None => true,
+        Some(pv) => exists|b: bool| pv == pv_bool(b) && forall|x: EntityUID, y: EntityUID| #![trigger left(x), right(y)] left(x) && right(y) ==> (x == y) == b,
+    }
+}
